@@ -37,6 +37,7 @@ def _shards(tier):
         {"fn": "nan_spot", "consts": {}, "timeout": 120, "cover": False},
         {"fn": "zero_spot", "consts": {}, "timeout": 120, "cover": False},
         {"fn": "string_spot", "consts": {}, "timeout": 300, "cover": False},
+        {"fn": "after_failure", "consts": {}, "timeout": 300, "cover": False},
         {"fn": "seq_lemma", "consts": {"n": n}, "timeout": 900},
         {"fn": "set_lemma", "consts": {"n": n}, "timeout": 900},
         {"fn": "map_lemma", "consts": {"n": n}, "timeout": 900},
